@@ -196,10 +196,17 @@ def check(prop, tier, seed):
             results.append(f.result())
     crashed = [r for r in results if r.get('crashed')]
     if crashed:
+        done = [r for r in results if not r.get('crashed')]
+        pending = [v for r in done for v in r['violations'] if core.match_known(prop, v) is None]
         for r in crashed:
             print(f"worker {r['job']} crashed:\n{r['log']}")
-        print(f"CHECK-BROKEN property={prop} (worker crash/timeout)")
-        return 2
+        if not pending:
+            print(f"CHECK-BROKEN property={prop} (worker crash/timeout)")
+            return 2
+        # a job that did not come back (e.g. the implementation hangs in compiled code) cannot hide what the completed jobs found
+        for r in crashed:
+            print(f"NOTE property={prop} job {r['job']} did not complete ({'timeout' if r.get('timeout') else 'crash'}); reporting the violations found by the completed jobs")
+        results = done
 
     evaluations = sum(r['evaluations'] for r in results)
     nontrivial = set()
